@@ -75,6 +75,7 @@ fn oracles() -> Vec<(&'static str, Enumerate, Check)> {
         ("c20_known_paren", o_contexts::enum_known_paren, o_contexts::check_strict),
         ("c20_known_infix", o_contexts::enum_known_infix, o_contexts::check_strict),
         ("c20_known_escape", o_contexts::enum_known_escape, o_contexts::check_strict),
+        ("c20_known_quotes", o_contexts::enum_known_quotes, o_contexts::check_strict),
     ]
 }
 
